@@ -80,6 +80,29 @@ def _trailing(v, text):
     return pp.trailing_comment(v, text)
 
 
+def _responses():
+    """requests.Response objects (the requests extra is installed for them): a large body without a declared charset, a short one, one
+    with a charset - printing must not set or change any attribute of the response"""
+    try:
+        import requests
+        import prettyprinter as pp
+        pp.install_extras(['requests'], warn_on_error=False)
+    except Exception:
+        return []
+    out = []
+    for body, ctype, enc in ((b'plain text body ' * 40, 'text/plain', None), (b'short', 'text/plain', None),
+                             (b'caf\xc3\xa9 ' * 120, 'text/plain; charset=utf-8', 'utf-8'), (b'{"a": [1, 2]}', 'application/json', None)):
+        r = requests.Response()
+        r.status_code = 200
+        r._content = body
+        r._content_consumed = True
+        r.url = 'http://example.org/x'
+        r.headers['Content-Type'] = ctype
+        r.encoding = enc
+        out.append(r)
+    return out
+
+
 def corpus():
     import prettyprinter as pp
     dd = collections.defaultdict(list)
@@ -109,6 +132,8 @@ def corpus():
         [time.struct_time((1999, 12, 31, 23, 59, 59, 4, 365, 0))], os.terminal_size((80, 24)), sys.float_info,
         pathlib.PurePosixPath('//fileserver/projects/' + 'segment/' * 9 + 'end'),
         # a contained internal failure under a trailing comment, then ordinary trailing comments on the same printers
+        # empty sets / frozensets at different levels (their form at the depth cut differs: set(...) vs set())
+        set(), {'tags': set()}, [set(), [frozenset(), [set()]]], (frozenset(),),
         # keys that cannot be ordered among each other: with sort_dict_keys=True the entry order must still be a function of the value
         {1e16: float('-inf'), 'e': None, (1, 2): 3, None: 4, b'b': 5}, [{2: 'i', 'two': 's', (2,): 't'}, {('a', 1): 0, ('a', 'b'): 1}],
         # comments of several words that have to be wrapped (longer than any page width used), next to values that print one short comment
@@ -119,4 +144,4 @@ def corpus():
         _PlainStatus(), _EnumStatus.OK, [_EnumStatus.FAIL, _PlainStatus()],
         # predicate printers: the first-registered accepting predicate wins, whatever was printed before
         Marked('a'), Marked('b'), Marked('ab'), [Marked('ba'), Marked('b')], Marked('c'),
-    ]
+    ] + _responses()
